@@ -145,6 +145,9 @@ func makeCursor(x Inst) (*cursor, [][]int) {
 	case *linkedhashset.Set[int]:
 		it := t.Iterator()
 		return wrapIdx[int](&it, idInt), seqIdx(t.Values())
+	case ordSet[float64]: // TreeSet of floats behind codes (fam_dflt.go)
+		it := t.ts().Iterator()
+		return wrapIdx[float64](&it, t.c.enc), seqIdx(t.Values())
 	case *treemap.Map[int, V]:
 		return wrapKey(t.Iterator()), seqKV(t.Keys(), t.Get)
 	case *linkedhashmap.Map[int, V]:
@@ -432,6 +435,167 @@ func cursorWalkAt(j *jobCtx, x Inst, maxSteps int, at int) {
 		"pure": fp0 == fullFP(x)}))
 }
 
+// Kept iterators: an iterator is created, moved somewhere, the container is then modified, and the SAME iterator is
+// rewound with Begin / End / First / Last (the library's own tests do this on every container) and walked again: from
+// the jump on it must be a cursor over the container's NEW sequence.  A "Modified" event carries that sequence and
+// makes the position unknown to the specification until the next absolute jump.
+func cursorKept(j *jobCtx, u Universe, path []Call) {
+	x0 := replay(u, path)
+	// modifications: single mutating calls of the universe, pairs that keep the size, a multi-argument removal, Clear
+	// and a load (whatever the kind offers)
+	var muts [][]Call
+	var single []Call
+	for _, c := range u.Calls(x0) {
+		if x0.Mutates(c.Op) && c.Op != "New" {
+			single = append(single, c)
+		}
+	}
+	for i, c := range single {
+		if i%(1+len(single)/6) == 0 || c.Op == "Clear" || c.Op == "FromJSON" {
+			muts = append(muts, []Call{c})
+		}
+	}
+	for i := 0; i+1 < len(single) && len(muts) < 14; i += 1 + len(single)/4 {
+		muts = append(muts, []Call{single[i], single[len(single)-1-i]})
+	}
+	switch t := x0.(type) {
+	case *setInst:
+		vs := t.s.Values()
+		if len(vs) >= 2 {
+			muts = append(muts, []Call{{Op: "Remove", Vs: []int{vs[0], vs[len(vs)-1]}}}, []Call{{Op: "Remove", Vs: []int{vs[0], vs[1]}}, {Op: "Add", Vs: []int{vs[0]}}})
+		}
+	case *mapInst:
+		ks := t.c.Keys()
+		if len(ks) >= 1 { // remove the least / greatest key and put another one: the size stays
+			muts = append(muts, []Call{{Op: "Remove", I: ks[0]}, {Op: "Put", I: ks[0] + 1, V: 7}}, []Call{{Op: "Remove", I: ks[len(ks)-1]}, {Op: "Put", I: -1, V: 7}},
+				[]Call{{Op: "Clear"}, {Op: "Put", I: 2, V: 1}})
+		}
+	case *heapInst:
+		put, take := "Push", "Pop"
+		if t.kind == "priorityqueue" {
+			put, take = "Enqueue", "Dequeue"
+		}
+		muts = append(muts, []Call{{Op: take}, {Op: put, Vs: []int{1}}}, []Call{{Op: put, Vs: []int{1}}}, []Call{{Op: put, Vs: []int{99}}, {Op: take}})
+	}
+	rewinds := []string{"Begin", "First", "Last", "End"}
+	for mi, mut := range muts {
+		if budgetExceeded() {
+			return
+		}
+		x := replay(u, path)
+		var cur *cursor
+		var seq [][]int
+		ci := invoke(Ev{"op": "Iterator", "kind": x.Kind()}, func() { cur, seq = makeCursor(x) })
+		if ci.Panic || cur == nil {
+			continue
+		}
+		base := Ev{"fam": "cur", "kind": x.Kind(), "cfg": x.Cfg(), "timeout": false, "obsbad": false, "at": -1}
+		ev := func(extra Ev) Ev {
+			e := Ev{}
+			for k, v := range base {
+				e[k] = v
+			}
+			for k, v := range extra {
+				e[k] = v
+			}
+			return e
+		}
+		zero := Ev{"p": pred{Name: "true"}, "ret": false, "has": false, "key": 0, "val": 0, "idx": 0, "pure": true, "panic": false, "pmsg": "", "out": 0}
+		emit(ev(merge(zero, Ev{"op": "NewIter", "rs": 1, "seq": seq, "keyed": cur.keyed, "rev": cur.reverse})))
+		do := func(c curCall) bool {
+			var ret, has bool
+			var a, b int
+			e := ev(Ev{"op": c.op, "rs": 0, "p": c.p})
+			ci := invoke(e, func() {
+				switch c.op {
+				case "Next":
+					ret = cur.next()
+				case "Prev":
+					ret = cur.prev()
+				case "First":
+					ret = cur.first()
+				case "Last":
+					ret = cur.last()
+				case "Begin":
+					cur.begin()
+				case "End":
+					cur.end()
+				}
+				if ret && c.op != "Begin" && c.op != "End" {
+					a, b = cur.read()
+					has = true
+				}
+			})
+			e["panic"], e["pmsg"], e["out"] = ci.Panic, ci.PMsg, ci.Out
+			e["ret"], e["has"], e["key"], e["val"], e["idx"] = ret, has, a, b, a
+			e["seq"], e["keyed"], e["rev"], e["pure"] = 0, cur.keyed, cur.reverse, true
+			emit(e)
+			return !ci.Panic
+		}
+		// move off the initial state: a few steps forward (different depths for different scenarios), sometimes to the far end
+		ok := true
+		for s := 0; s < 1+mi%(len(seq)+2) && ok; s++ {
+			ok = do(curCall{op: "Next"})
+		}
+		if mi%3 == 2 && cur.reverse && ok {
+			ok = do(curCall{op: "Last"})
+		}
+		if !ok {
+			continue
+		}
+		// modify the container (under the watchdog, not logged as cursor events: the families of the container judge these calls)
+		bad := false
+		for _, c := range mut {
+			c := c
+			if gi := invoke(skeleton(x, c), func() { x.Do(c) }); gi.Panic {
+				bad = true
+			}
+		}
+		if bad {
+			continue
+		}
+		var seq2 [][]int
+		if gi := invoke(Ev{"op": "Iterator", "kind": x.Kind()}, func() { _, seq2 = makeCursor(x) }); gi.Panic {
+			continue
+		}
+		emit(ev(merge(zero, Ev{"op": "Modified", "rs": 0, "seq": seq2, "keyed": cur.keyed, "rev": cur.reverse})))
+		// rewind and walk
+		rw := rewinds[mi%len(rewinds)]
+		if !cur.reverse && (rw == "Last" || rw == "End") {
+			rw = rewinds[mi%2]
+		}
+		if !do(curCall{op: rw}) {
+			continue
+		}
+		steps := []string{"Next", "Next", "Next"}
+		if rw == "Last" || rw == "End" {
+			steps = []string{"Prev", "Prev", "Prev"}
+		}
+		if cur.reverse {
+			steps = append(steps, "First", "Next", "Last", "Prev", "End", "Prev", "Begin", "Next")
+		} else {
+			steps = append(steps, "First", "Next", "Begin", "Next")
+		}
+		for _, s := range steps {
+			if !do(curCall{op: s}) {
+				break
+			}
+		}
+		distinct[x.Kind()+"|kept|"+rw+"|"+mut[0].Op] = struct{}{}
+	}
+}
+
+func merge(a, b Ev) Ev {
+	out := Ev{}
+	for k, v := range a {
+		out[k] = v
+	}
+	for k, v := range b {
+		out[k] = v
+	}
+	return out
+}
+
 func posClass(pos, n int) int {
 	switch {
 	case pos < 0:
@@ -575,7 +739,8 @@ func jobCursor(j *jobCtx) {
 				}
 			}
 		}
-		for _, p := range paths {
+		keptStride := 1 + len(paths)/pick(30, 120)
+		for pi, p := range paths {
 			if budgetExceeded() {
 				extraStats["tour_truncated"] = true
 				return
@@ -588,6 +753,10 @@ func jobCursor(j *jobCtx) {
 			}
 			for w := 0; w < walks; w++ {
 				cursorWalk(j, x, 400)
+			}
+			// kept iterators: modified container, rewound iterator (a sample of the states)
+			if pi%keptStride == 0 {
+				cursorKept(j, u, p)
 			}
 			// IteratorAt(node): a cursor that starts on an element (red-black tree only)
 			if t, ok := x.Target().(*rbt.Tree[int, V]); ok {
